@@ -47,6 +47,14 @@ claimed = {
    'Seeded deterministic simulation of transfers in which a protocol-aware link rewriter replaces the payload of 1-3 protocol lines sent to the attacked role by boundary values (numbers: -1, 0, +-1, 2^31, 2^62, 2^63-1, non-numeric, oversized; broken base64/zlib; truncated or wrongly typed JSON; hostile known fields), at every stage, both roles, protocols 1-4, base64/binary, with and without a progress display. Oracles: no panic or fatal error in any goroutine (worker crash attributed to the run via BEGIN/END markers and re-executed for its tape), allocation during the run bounded by 64 MiB + 16 x bytes moved (ulimit -v 8 GiB on the worker), both roles end, no percentage outside 0..100 on the terminal, transparency probe passes afterwards.',
    'Raw byte soup into the detectors (trigger/zmodem/OSC52/drag) is exercised by the C05 check, whose crashes would also stop this check; Windows/macOS drag-path syntaxes are not reachable on this host.',
    'deterministic simulation with a protocol-aware field rewriter (hostile peer), crash attribution, allocation monitor', '§4 C12'),
+ 'C13': ('exploration',
+   'Seeded deterministic simulation of one real relay between a scripted client and a scripted server: 1-3 handshakes per run (confirm, cancel, malformed ACT, malformed CFG; ended by EXIT, fail from either side or Ctrl-C), arbitrary bytes before/after/in the same chunk as the trigger, ACT and CFG lines, LF-free junk in front of a handshake line, a CFG already in flight before the ACT, tape-chosen think times, segmentation and coalescing. Every atomic, lock and channel operation of relay.go and buffer.go is a scheduling point (inserted by rewriting the source at build time); schedules are random, PCT-style (1-3 priority change points) or run-to-block with rare preemption. Oracle: an executable reference model of both output streams - identity except the forwarded trigger (#R suffix, id re-tag), the ACT/CFG lines compared decoded field by field, consumed malformed lines and relay-made FAIL lines; nothing lost, duplicated, reordered or on the wrong side. Sensitivity: dropping the status re-check under the relay lock is caught in ~13% of runs.',
+   'Sampling of interleavings, not enumeration. End-of-transfer markers, like triggers, are delivered within one read (the relay scans per read); markers racing with the end of the handshake are exercised by C14.',
+   'deterministic simulation: seeded scheduler over AST-inserted scheduling points (random/PCT/run-to-block) + reference-model oracle over recorded byte streams', '§4 C13'),
+ 'C14': ('exploration',
+   'Seeded deterministic simulation of two consecutive real transfers through one or two real relays (inside/outside tmux, normal/control mode), generated client capability sets (protocol 1-9, binary, directory support) and server options, with and without a tunnel (per-host port namespaces, relay tunnel hop), first transfer ended by exit, user stop through the prompt, server-side disk error or SIGINT at the server. Oracles: decoded ACT after the last relay (binary off without a tunnel, protocol <= 4 and <= offered, other fields preserved), decoded CFG at the client (server settings preserved, tmux junk flag and pane width added), files as in a direct transfer, every relay back in standby, no relay goroutine spinning, transparency probe through the relays in both directions, second transfer succeeds with identical files. Batch overtake: the end-of-transfer marker is sent as soon as the handshake lines have been seen, so it can reach the relay while it is still handshaking; the relay must still return to standby.',
+   'Same-tree peers; refusal by the client (cancelled file dialog) is exercised at relay level by C13 only; end-of-transfer markers are delivered within one read.',
+   'deterministic simulation of multi-party transfers (client, 1-2 relays, server) with wire monitors on every hop and relay-state / busy-loop monitors', '§4 C14'),
 }
 pending_reason = 'check not built yet in this session (deterministic simulation planned, see DESIGN.md §4); not claimed'
 checks = []
